@@ -58,6 +58,10 @@ def corpus():
     # break of a live holder, then the victim's stale unlock removes a third locker's lock
     out.append(case([P(["attempt", "unlock"]), P(["peek", "forcebreak"]), P(["attempt", "confirm"])],
                     [0] * 4 + [1] + [0] + [1] * 5 + [2] * 4 + [0] * 3 + [2]))
+    # a break and a re-acquisition between a locker's rename into place and its confirming peek (nonce check)
+    out.append(case([P(["attempt", "confirm"]), P(["peek", "forcebreak"]), P(["attempt"])], [0] * 3 + [1] * 6 + [2] * 4 + [0] * 2 + [2]))
+    out.append(case([P(["attempt", "confirm"]), P(["peek", "forcebreak"]), P(["attempt"])], [0] * 3 + [1] * 6 + [2] * 4 + [0] * 2 + [2],
+                    transport="local"))
     # steal from a dead holder
     out.append(case([P(["attempt", "crash"], wid=DEADW), P(["attempt", "unlock"])], [0] * 4 + [1] * 16, steal=True))
     out.append(case([P(["attempt", "crash"], wid=DEADW), P(["attempt", "unlock"])], [0] * 4 + [1] * 16, steal=False))
